@@ -403,6 +403,22 @@ def rule_not_carried(ctx):
                             bad = e
                     if T.call_name(c) == 'update' and T.call_receiver(c)[0] == 'attr' and T.call_receiver(c)[2] in ('attrs', '_attrs') and 'attrs' in T.show(c[2]):
                         bad = e
+        # a result obtained by copying an operand (copy(), copy.copy, deepcopy) carries - and may share - its metadata
+        copied = None
+        for p in ev.paths:
+            if p.kind != 'return':
+                continue
+            for alt in T.strip_phi(p.value):
+                base = alt
+                while base[0] in ('mut', 'setitem'):
+                    base = base[1]
+                if base[0] == 'call' and (T.call_name(base) in ('copy', 'deepcopy', '__copy__', '__deepcopy__')) and \
+                        any(T.contains(base, P_(x)) for x in ('self', 'other', 'o1', 'o2')):
+                    copied = (p, base)
+        if copied is not None and bad is None:
+            ctx.violated('R4', fi, 'result is a copy of an operand', '%s builds its result as %s: a copy of the operand keeps (a shallow one shares) the operand\'s attrs, but the results of '
+                         'arithmetic / unary operators carry no metadata' % (q.rsplit('.', 1)[-1], T.show(copied[1])[:60]), node=copied[0].node)
+            continue
         if bad:
             ctx.violated('R4', fi, bad.node, '%s must return an array without the operands\' metadata' % q.rsplit('.', 1)[-1], node=bad.node)
         elif n:
@@ -470,6 +486,11 @@ def check(ctx):
     rule_carried(ctx)
     rule_not_carried(ctx)
     rule_axis_metadata(ctx)
+    # axis metadata through reindexing: the result's axis is the array's own (taken, then relabelled where labels were missing), never the argument's Axis
+    # object - the pipeline rule of C07
+    from . import c07
+    ctx.rule('R6', 'reindex_axis keeps the array\'s own axis object lineage (pipeline rule shared with C07)', 1)
+    c07.rule_pipeline(ctx, rid='R6')
     ctx.not_decided += ['semantics of dict.update (trusted)', 'Dataset-level propagation (decided under C14-R5)']
     ctx.trusted += ['dict.update copies all entries', 'hasattr(cls, name) is what "class member" means']
     return EXPLANATION
